@@ -44,7 +44,7 @@ func (s *c01State) seePrice(sqrtP *big.Rat) {
 
 func runC01(c *vk.Ctx) {
 	c.R.Rule = "cases = the common concentrated-liquidity histories (see C07). After EVERY operation: (i) Σ claimable spread rewards / incentives over all positions vs the balances of the two reward accounts; (ii) on three discarded branches (ascending, descending, seed-shuffled position order) every position is claimed (spread rewards, incentives) and fully withdrawn — every message must succeed — and the pool's remaining token balances are measured against the computed rounding-dust bound. A second part evaluates the exported LP-amount functions against exact rationals for rounding direction. distinct_nontrivial counts distinct (operation, #positions bucket, exit order, dust class, any-claimable?) tuples plus (function, roundUp, regime) cells of the direction layer."
-	nHist := c.N(240, 1600)
+	nHist := c.N(480, 1600)
 	opsPer := c.N(40, 150)
 	var st *c01State
 	hooks := clHooks{}
